@@ -149,7 +149,7 @@ func (fsm *stateMachine) onApply(t fsmApply) {
 }
 
 func (fsm *stateMachine) onSnapReq(t fsmSnapReq) {
-	if fsm.index == fsm.snaps.index {
+	if fsm.index == fsm.snaps.latestIndex() {
 		t.reply(ErrNoUpdates)
 		return
 	}
@@ -223,7 +223,7 @@ func (r *Raft) onTakeSnapshot(t takeSnapshot) {
 	// enqueue the request from this goroutine: fsm.ch is fifo, so the
 	// snapshot is taken exactly at the current commitIndex, for which
 	// configs.Committed is the configuration in force
-	req := fsmSnapReq{task: newTask(), index: r.snaps.index + t.threshold}
+	req := fsmSnapReq{task: newTask(), index: r.snaps.latestIndex() + t.threshold}
 	r.fsm.ch <- req
 	go func(config Config) { // tracked by r.snapTakenCh
 		meta, err := doTakeSnapshot(r.fsm, req, config)
